@@ -764,7 +764,7 @@ class Interp:
             if name == 'result':
                 return st.ghost['result']
             if name == 'trace':
-                return VList(z3.IntVal(TRACE_REF), TRef('Event'))
+                return VTrace()
             if name == 'clock':
                 return VReal(st.clock)
             if name == 'spec':
@@ -1096,24 +1096,49 @@ class Interp:
 
     def event_attr(self, ev, attr):
         st = self.st
+        H = st.cur_heap()
         if attr == 'fn':
-            return VFunc(st.hget_in(st.cur_heap(), 'k:ev.fn', z3.IntSort(), ev.t))
+            return VFunc(st.hget_in(H, 'T:fn', z3.IntSort(), ev.t))
         if attr == 'n':
-            return VInt(self.ar.from_index(st.hget_in(st.cur_heap(), 'k:ev.n', z3.IntSort(), ev.t)))
+            return VInt(self.ar.from_index(st.hget_in(H, 'T:n', z3.IntSort(), ev.t)))
         import re as _re
         m = _re.match(r'^([irlfbo])(\d+|_\w+)$', attr)
         if m and st.spec:
             # typed accessors: the argument as int / real / list / func / bool / object, with the tag as definedness guard
             kind, slot = m.group(1), m.group(2)
             slot = ('a' + slot) if slot[0].isdigit() else ('k' + slot)
-            want = {'i': (VInt,), 'r': (VReal,), 'l': (VList,), 'f': (VFunc,), 'b': (VBool,), 'o': (VRef,)}[kind]
-            u = field_load(st, 'k:ev.' + slot, self.eng.T_ANY, ev.t)
+            tag = st.hget_in(H, 'T:%s#tag' % slot, z3.IntSort(), ev.t)
+            if kind == 'l':
+                st.defined.append(tag == self.eng.LIST_TAG)
+                return self.eng.event_seq(st, slot, ev.t)
+            want = {'i': (VInt,), 'r': (VReal,), 'f': (VFunc,), 'b': (VBool,), 'o': (VRef,)}[kind]
+            u = field_load(st, 'T:' + slot, self.eng.T_ANY, ev.t)
             for c, a in flatten_union(u):
                 if isinstance(a, want):
                     st.defined.append(c)
+                    if isinstance(a, VRef):
+                        a = self.event_obj(ev, slot, a)
                     return a
             raise EngineError('typed event accessor ' + attr)
-        return field_load(st, 'k:ev.' + attr, self.eng.T_ANY, ev.t)
+        u = field_load(st, 'T:' + attr, self.eng.T_ANY, ev.t)
+        alts = []
+        for c, a in flatten_union(u):
+            if isinstance(a, VList):
+                a = self.eng.event_seq(st, attr, ev.t)
+            elif isinstance(a, VRef):
+                a = self.event_obj(ev, attr, a)
+            alts.append((c, a))
+        return VUnion(alts)
+
+    def event_obj(self, ev, slot, a):
+        """object argument of an event: recover its class when the recorded class id is concrete"""
+        st = self.st
+        cid = st.hget_in(st.cur_heap(), 'T:%s#cls' % slot, z3.IntSort(), ev.t)
+        if z3.is_int_value(cid):
+            for name, k in self.eng.cls_ids.items():
+                if k == cid.as_long():
+                    return VRef(a.t, name)
+        return a
 
     # ----- records (str-keyed dicts)
     def rec_has(self, rec, key):
@@ -1217,6 +1242,11 @@ class Interp:
 
     def getitem(self, obj, key):
         st = self.st
+        if isinstance(obj, VTrace):
+            i = z3.simplify(self.idx(key))
+            if z3.is_int_value(i) and i.as_long() < 0:
+                i = z3.simplify(st.tlen() + i)
+            return VRef(i, 'Event')
         if isinstance(key, VStr):
             obj = self.concretize(obj, (VRef, VKwargs, VConst))
         else:
